@@ -2,6 +2,7 @@
 values, cached/uncached mask, two requests and an optional value edit in between.  Oracle: the call relation derived
 from the pointers (calls through uncached cells attach to the nearest cached caller)."""
 from kit import *  # noqa
+use_formula_memo()
 import networkx as _nx
 import os as _os
 
